@@ -103,7 +103,7 @@ func (s *scan) flagEdge(b *cfg.Block, _ int) bool {
 		if id, ok := n.(*ast.Ident); ok {
 			switch o := s.info.Uses[id].(type) {
 			case *types.Var:
-				if o != s.key && !s.scanV[o] {
+				if o != s.key && !s.scanV[o] && !s.tagVar(o) {
 					flag = true
 				}
 			case *types.Func:
@@ -113,6 +113,44 @@ func (s *scan) flagEdge(b *cfg.Block, _ int) bool {
 		return true
 	})
 	return flag
+}
+
+// tagVar: o only ever holds a slice of the key (or the empty string): a
+// condition on it is a condition on key content, not a control flag.
+func (s *scan) tagVar(o types.Object) bool {
+	found, other := false, false
+	ast.Inspect(s.fn.Decl.Body, func(n ast.Node) bool {
+		check := func(lhs, rhs ast.Expr) {
+			if objOf(s.info, lhs) != o || rhs == nil {
+				return
+			}
+			r := strip(s.info, rhs)
+			if se, ok := r.(*ast.SliceExpr); ok && objOf(s.info, se.X) == s.key {
+				found = true
+				return
+			}
+			if v, ok := core.StringConst(s.info, r); ok && v == "" {
+				return
+			}
+			other = true
+		}
+		switch st := n.(type) {
+		case *ast.AssignStmt:
+			if len(st.Lhs) == len(st.Rhs) {
+				for i := range st.Lhs {
+					check(st.Lhs[i], st.Rhs[i])
+				}
+			}
+		case *ast.ValueSpec:
+			for i, nm := range st.Names {
+				if i < len(st.Values) {
+					check(nm, st.Values[i])
+				}
+			}
+		}
+		return true
+	})
+	return found && !other
 }
 
 // tagDef: the node fixes the tag: it assigns a slice of key, or moves the
